@@ -21,7 +21,7 @@ mkdir -p $LAB/out
 if [ ! -d $LAB/repo ]; then git -C /repo worktree add -q --detach $LAB/repo HEAD || exit 2; fi
 git -C $LAB/repo checkout -q --detach "$(git -C /repo rev-parse HEAD)" 2>/dev/null
 git -C $LAB/repo checkout -q -- . ; git -C $LAB/repo clean -qfd tests src 2>/dev/null
-rsync -a --delete --exclude target --exclude build.log /verif/sim/ $LAB/sim/
+rsync -a --delete --exclude target --exclude build.log ${SIMSRC:-/verif/sim}/ $LAB/sim/
 sed -i "s#path = \"/repo\"#path = \"$LAB/repo\"#" $LAB/sim/Cargo.toml
 if [ "$PATCH" != "none" ]; then
     git -C $LAB/repo apply "$PATCH" || { echo "PATCH-DOES-NOT-APPLY"; exit 2; }
